@@ -7,6 +7,7 @@
 
 pub mod shim {
     pub use shim_sched::atomic;
+    pub use shim_sched::sync;
 }
 
 #[allow(warnings, clippy::all)]
